@@ -354,13 +354,21 @@ func (c *Collection) itemSlice(readConfig *ReadRequest) []idItem {
 }
 
 func (c *Collection) genID() (string, error) {
-	return GenerateUniqueId(c.rng, func(candidate string) bool {
+	id, err := GenerateUniqueId(c.rng, func(candidate string) bool {
 		if c.idInterceptor != nil {
 			candidate = c.idInterceptor(candidate)
 		}
 		_, exists := c.byId[candidate]
 		return exists
 	})
+	if err != nil {
+		return "", err
+	}
+	if c.idInterceptor != nil {
+		// store and report the id in the same form that lookups will use
+		id = c.idInterceptor(id)
+	}
+	return id, nil
 }
 
 type item struct {
